@@ -19,6 +19,8 @@ pub struct RouteCfg {
     pub limit: u64,
     pub v1: bool,
     pub conn_num: usize,
+    /// proxies forward commands for foreign slots themselves (active redirection, at most 4 hops) instead of answering MOVED
+    pub active: bool,
 }
 
 fn parse_moved(r: &RespVec) -> Option<(usize, String)> {
@@ -356,13 +358,13 @@ impl Rig {
 }
 
 pub async fn run_one(cfg: &RouteCfg) -> Vec<Value> {
-    let w = match ClusterWorld::new(cfg.limit, false, cfg.compress, false, cfg.conn_num, cfg.v1) {
+    let w = match ClusterWorld::new(cfg.limit, false, cfg.compress, cfg.active, cfg.conn_num, cfg.v1) {
         Ok(w) => w,
         Err(e) => return vec![json!({"kind": "harness_error", "e": e})],
     };
     w.net.inner.log_redis.store(true, std::sync::atomic::Ordering::SeqCst);
     let mut rig = Rig { w, keys: keys_for_all_slots(), out: vec![], uniq: 0, rng: StdRng::seed_from_u64(cfg.seed), all_slots: cfg.all_slots, check_free: false };
-    rig.emit(json!({"kind": "reset", "seed": cfg.seed, "compress": cfg.compress, "limit": cfg.limit, "v1": cfg.v1, "conn_num": cfg.conn_num, "all_slots": cfg.all_slots}));
+    rig.emit(json!({"kind": "reset", "seed": cfg.seed, "compress": cfg.compress, "limit": cfg.limit, "v1": cfg.v1, "conn_num": cfg.conn_num, "all_slots": cfg.all_slots, "active_redirection": cfg.active}));
     // layout
     let nh = rig.rng.gen_range(3..=4);
     let per = rig.rng.gen_range(2..=3);
@@ -447,7 +449,7 @@ pub fn run_many<W: Write>(out: &mut W, count: u64, seed: u64, all_slots: bool) {
     let rt = tokio::runtime::Builder::new_current_thread().enable_all().start_paused(true).build().expect("rt");
     for i in 0..count {
         let s = seed.wrapping_mul(1_000_003).wrapping_add(i);
-        let cfg = RouteCfg { seed: s, all_slots, compress: i % 2 == 1, limit: [1u64, 0, 2][(i % 3) as usize], v1: i % 4 == 3, conn_num: 1 + (i % 2) as usize };
+        let cfg = RouteCfg { seed: s, all_slots, compress: i % 2 == 1, limit: [1u64, 0, 2][(i % 3) as usize], v1: i % 4 == 3, conn_num: 1 + (i % 2) as usize, active: std::env::var("UVERIF_ACTIVE").is_ok() || i % 5 == 2 };
         let log = rt.block_on(run_one(&cfg));
         for e in log {
             writeln!(out, "{}", e).ok();
